@@ -555,7 +555,7 @@ func ruleCmp(c *Ctx) {
 		if call, ok := r.(*ast.CallExpr); ok && p.CalleeName(f, call) == "bytes.Equal" {
 			whole = p.cmpOperands(info, call, sumV, sumF)
 		}
-		if whole && g.Dominates(sumN, m) {
+		if whole && (g.Dominates(sumN, m) || !p.FeasibleReach(f, []*Node{g.Entry}, func(x *Node) bool { return x == sumN }, nil)[m]) {
 			c.R.Hold("R-CMP", p.Pos(rs), f.Name, "whole-value comparison", "ConstantTimeCompare(sum, Checksum) == 1 on the un-sliced digest and checksum", true)
 		} else {
 			c.R.Violate("R-CMP", p.Pos(rs), f.Name, "whole-value comparison", "the match result is not the constant-time (length-sensitive) equality of the complete digest with the complete configured checksum: a truncated, extended or otherwise different checksum can be accepted", nil)
@@ -635,6 +635,13 @@ func ruleSentinelSecure(c *Ctx) {
 				at, isAt := edgeAtom(info, e)
 				if isAt && gd.edge(at) && sent != nil && retSent(e.To, sent) && (openN == nil || g.Dominates(m, openN)) {
 					ok = true
+				}
+				// the sentinel recorded in an error variable and returned further down
+				// (an inlined validation helper), the file still unopened on that way
+				if isAt && gd.edge(at) && sent != nil && !ok && p.sentinelOnEveryPath(f, e.To, sent) {
+					if openN == nil || !p.FeasibleReach(f, []*Node{e.To}, nil, nil)[openN] {
+						ok = true
+					}
 				}
 			}
 		}
